@@ -32,7 +32,9 @@ End Walk.
 Definition shape := N.                  (* astequal class of an expression *)
 
 (* expression tree for the SkipChilds protocol: [hit] = the visitor reports here and sets SkipChilds *)
-Inductive tree := T (pos : N) (hit : bool) (kids : list tree).
+(* [warn]: the visitor reports at this node; [skip]: it sets SkipChilds (typeUnparen.checkType skips without necessarily
+   reporting; its `(struct{...})` case reports without skipping) *)
+Inductive tree := T (pos : N) (warn skip : bool) (kids : list tree).
 
 Record link := { l_id : N; l_pos : N; l_init : bool; l_assert : option (shape * shape) }.
 
@@ -60,7 +62,7 @@ Definition file := list decl.
 
 (* position shift of a declaration (blank lines / padding inserted above it) *)
 Fixpoint shift_tree (k : N) (t : tree) : tree :=
-  match t with T p h ks => T (p + k) h (map (shift_tree k) ks) end.
+  match t with T p w h ks => T (p + k) w h (map (shift_tree k) ks) end.
 Definition shift_link (k : N) (l : link) : link :=
   {| l_id := l_id l; l_pos := (l_pos l + k)%N; l_init := l_init l; l_assert := l_assert l |}.
 Definition shift_pk (k : N) (x : N * shape) : N * shape := ((fst x + k)%N, snd x).
@@ -105,7 +107,18 @@ Section StmtVisitor.
     end.
 End StmtVisitor.
 
-(* ---- decidable equality on the abstract syntax produced by the converter (SExpr trees are never produced: unequal) ---- *)
+(* ---- decidable equality on the abstract syntax produced by the converter ---- *)
+Fixpoint tree_eqb (a b : tree) {struct a} : bool :=
+  match a, b with
+  | T p w s ks, T p' w' s' ks' =>
+      N.eqb p p' && Bool.eqb w w' && Bool.eqb s s' &&
+      (fix go (l l' : list tree) : bool :=
+         match l, l' with
+         | [], [] => true
+         | x :: r, y :: r' => tree_eqb x y && go r r'
+         | _, _ => false
+         end) ks ks'
+  end.
 Definition opt_eqb {A} (e : A -> A -> bool) (a b : option A) : bool :=
   match a, b with Some x, Some y => e x y | None, None => true | _, _ => false end.
 Definition pk_eqb (a b : N * shape) : bool := N.eqb (fst a) (fst b) && N.eqb (snd a) (snd b).
@@ -117,6 +130,7 @@ Definition stmt_eqb (a b : stmt) : bool :=
   | SSwitch p c, SSwitch p' c' => N.eqb p p' && list_eqb pk_eqb c c'
   | STypeSwitch p g h, STypeSwitch p' g' h' => N.eqb p p' && Bool.eqb g g' && list_eqb Bool.eqb h h'
   | SLit p w ks, SLit p' w' ks' => N.eqb p p' && opt_eqb N.eqb w w' && list_eqb pk_eqb ks ks'
+  | SExpr t, SExpr t' => tree_eqb t t'
   | _, _ => false
   end.
 Definition comment_eqb (a b : comment) : bool :=
